@@ -43,6 +43,9 @@ def run(ctx):
     r1110(ctx)
     from . import c03 as _c03
     _c03.r319(ctx, ctx.repo['core'], 'R11.14')
+    _c03.r311(ctx, ctx.repo['core'], 'R11.15')    # levels decoded into the output mask become null flags in place
+    r1116(ctx)
+    r1117(ctx)
     from . import c02 as _c02
     _c02.r211(ctx, 'R11.13')
     from . import findings2 as _f2
@@ -357,3 +360,67 @@ def r1110(ctx, rule='R11.10'):
                 sites.append('%s: read(%s)' % (q, norm(c.args[0])[:50]))
     ctx.stat('%s header-sized reads in core (0 is a legal size)' % rule, sites)
     ctx.floor(rule, 'header-sized reads in core', len(sites), 8)
+
+
+def _varint_bytes_bound(f):
+    """how many run-header bytes beyond the first does the function account for? None = as many as needed (a loop that
+    divides until nothing is left), an int = a fixed enumeration of 7-bit shifts"""
+    for x in ast.walk(f):
+        if isinstance(x, ast.While):
+            t = norm(x.test)
+            divs = [a for a in ast.walk(x) if isinstance(a, ast.AugAssign) and isinstance(a.op, (ast.FloorDiv, ast.RShift)) and norm(a.target) == t]
+            if divs and ((isinstance(divs[0].op, ast.FloorDiv) and norm(divs[0].value) == '128') or (isinstance(divs[0].op, ast.RShift) and norm(divs[0].value) == '7')):
+                return 'loop', None
+    for x in ast.walk(f):
+        if isinstance(x, ast.Call) and norm(x.func) == 'range' and len(x.args) == 3 and all(isinstance(a, ast.Constant) for a in x.args):
+            lo, hi, step = (a.value for a in x.args)
+            if step == 7:
+                return 'range', len(range(lo, hi, step))
+    return None, None
+
+
+def r1116(ctx, rule='R11.16'):
+    """core.skip_definition_bytes steps over the level block make_definitions writes for an all-defined page: 4 bytes of
+    length, the run header - a varint holding count << 1, i.e. one byte plus one more for every further 7 bits - and one
+    byte of value.  The count is a 32-bit quantity (header up to 5 bytes): the extra bytes are counted by a loop that
+    runs until nothing is left, or by an enumeration of at least four 7-bit shifts; the fixed part is 6."""
+    core = ctx.repo['core']
+    f = core.func('skip_definition_bytes')
+    kind, k = _varint_bytes_bound(f)
+    ok = kind == 'loop' or (kind == 'range' and k >= 4)
+    ctx.ob(rule, 'core.skip_definition_bytes:run-header-of-every-length-stepped-over', ok,
+           'extra header bytes accounted for: %s' % ('as many as needed' if kind == 'loop' else k if kind else 'form not recognised'), core.loc(f))
+    fixed = [c for c in ast.walk(f) if isinstance(c, ast.Call) and isinstance(c.func, ast.Attribute) and c.func.attr == 'seek' and c.args
+             and any(isinstance(x, ast.Constant) and x.value == 6 for x in ast.walk(c.args[0]))]
+    ctx.ob(rule, 'core.skip_definition_bytes:fixed-part-is-length-word-first-header-byte-and-value', len(fixed) == 1, '', core.loc(f))
+    if kind == 'loop':
+        # the loop starts from the count with the first header byte's 6 payload bits taken off (count << 1 >> 7 = count // 64)
+        init = [a for a in ast.walk(f) if isinstance(a, ast.Assign) and isinstance(a.value, ast.BinOp) and isinstance(a.value.op, (ast.FloorDiv, ast.RShift))]
+        ok2 = any((isinstance(a.value.op, ast.FloorDiv) and norm(a.value.right) == '64') or (isinstance(a.value.op, ast.RShift) and norm(a.value.right) == '6')
+                  for a in init)
+        ctx.ob(rule, 'core.skip_definition_bytes:first-header-byte-carries-six-bits-of-the-count', ok2,
+               'the run header holds count << 1: its first byte carries 6 bits of the count', core.loc(f))
+
+
+def r1117(ctx, rule='R11.17'):
+    """a number of bytes derived from a number of bits (or of one-bit values) rounds up: (n + 7) // 8.  `n // 8 + 1` asks
+    for a byte too many whenever n is a multiple of 8 (and for one byte when n is 0) - a buffer that holds exactly the
+    values is then refused; `n // 8` alone drops the last partial byte"""
+    n = 0
+    for mn in ('encoding', 'core', 'writer'):
+        m = ctx.repo[mn]
+        for q, f in sorted(m.funcs.items()):
+            for c in walk_no_nested(f):
+                if not (isinstance(c, ast.Call) and (callee(c) or '').split('.')[-1] in ('frombuffer', 'empty', 'zeros', 'read')):
+                    continue
+                exprs = list(c.args) + [k.value for k in c.keywords if k.arg in ('count', 'shape')]
+                for e in exprs:
+                    for x in ast.walk(e):
+                        if isinstance(x, ast.BinOp) and isinstance(x.op, ast.FloorDiv) and norm(x.right) == '8':
+                            if isinstance(x.left, ast.BinOp) and isinstance(x.left.op, ast.Mult):
+                                continue    # (count * width // 8: a whole number of bytes by construction of the run)
+                            n += 1
+                            up = isinstance(x.left, ast.BinOp) and isinstance(x.left.op, ast.Add) and '7' in (norm(x.left.left), norm(x.left.right))
+                            ctx.ob(rule, '%s.%s:bytes-for-bits-round-up:%s' % (mn, q, norm(x)[:30]), up,
+                                   '`%s` in `%s`' % (norm(x), norm(c)[:70]), m.loc(c))
+    ctx.note('%s: byte counts derived from bit counts in buffer sizes: %d' % (rule, n))
